@@ -3,11 +3,38 @@ from vf.check import Run
 from props import common as cm
 
 
+def lean_lemma(r, tier):
+    """the external lemma the contract of c_intersect assumes (`Pigeonhole`) is proved in lean/Pigeonhole.lean; the Lean kernel re-checks it in
+    the thorough tier (cold start of Mathlib: about two minutes); the quick tier lists it as assumed"""
+    import os, subprocess, time
+    here = os.path.dirname(os.path.dirname(os.path.abspath(__file__)))
+    src = os.path.join(here, 'lean', 'Pigeonhole.lean')
+    note = 'Pigeonhole (assumed in the inner search loop of c_intersect): j pairwise distinct valid cells, all different from one more valid cell, satisfy j < nrows*ncols'
+    if tier != 'thorough':
+        r.assumptions.append('external lemma Pigeonhole assumed in this run; its Lean proof (lean/Pigeonhole.lean, theorems pigeonhole / pigeonhole_int) is re-checked by the thorough tier')
+        return
+    t0 = time.time()
+    try:
+        cp = subprocess.run(['lean', src], capture_output=True, text=True, timeout=1500, cwd=os.path.join(here, 'lean'))
+        out = (cp.stdout + cp.stderr)
+        ok = cp.returncode == 0 and 'error' not in out and 'sorry' not in out
+    except Exception as e:
+        ok = False; out = repr(e)
+    rec = dict(id='lean/Pigeonhole.lean/pigeonhole_int', kind='lemma', fn='c_intersect', line=0, note=note, text=note, file='lean/Pigeonhole.lean',
+               status='unsat' if ok else 'unknown', backend='lean 4 + Mathlib', time=time.time() - t0, reason='' if ok else out[-500:])
+    r.vcs.append(rec)
+    if ok:
+        r.by_backend['lean 4 + Mathlib'] += 1
+    else:
+        r.undecided.append('lean/Pigeonhole.lean: the Lean proof of the external lemma did not check: %s' % out[-600:])
+
+
 def run(tier):
     r = Run('C16', tier, level='other')
     cm.run_kernels(r, cm.kernels('c_coord2cell', 'c_intersect', 'c_voronoi'))
     cm.run_monitors(r, ['mon_intersect_voronoi'])
+    lean_lemma(r, tier)
     r.explanation = ('proved (Engine C): c_intersect lists each grid cell holding a catchment-cell centre exactly once with weight count x area ratio '
-                     '(pigeonhole lemma external, Lean); c_voronoi memory safety, rejection of an empty point set, non-negative weights; '
+                     '(pigeonhole lemma external: proved in lean/Pigeonhole.lean, re-checked by the thorough tier); c_voronoi memory safety, rejection of an empty point set, non-negative weights; '
                      'bounded: nearest-point fractions and sums (python monitors)')
     return r.finish()
